@@ -390,12 +390,15 @@ def run_property(pid, tier, seed, jobs=None, budget_s=None, runs=None, out=sys.s
         futs = {}
         for sig, cases in sorted(by_sig.items()):
             first = min(cases, key=lambda c: c["origin"]["run_index"])
+            by_sig[sig] = [first]
             if first.get("no_shrink"):
                 futs[sig] = None
-                by_sig[sig] = [first]
             else:
-                futs[sig] = pool.submit(shrink_worker, pid, first, shrink_budget)
-                by_sig[sig] = [first]
+                try:
+                    futs[sig] = pool.submit(shrink_worker, pid, first, shrink_budget)
+                except Exception as e:           # e.g. the pool broke earlier: report unshrunk
+                    harness.append("could not submit the shrinker: %r" % (e,))
+                    futs[sig] = None
         for sig, fut in futs.items():
             first = by_sig[sig][0]
             small = first
